@@ -18,6 +18,8 @@
       SWEEP t wall chk k v.. j x..       -> [TI n; (TI status+4*big; TI hash) * n]
       BLOCKSAVE t                        -> [TI 1; TI 1]  (save fails at open; dump unchanged)
       FAILSWEEP t wall                   -> [TI calls; TI all failed; TI dump unchanged; TI later save ok]
+      BGSWEEP t wall                     -> [TI calls; accepted; flag cleared; dump unchanged; later bgsave ok; newer data; mixed ok]
+      TEARSTRESS t saves torn runs       -> [TI 1]  (C10 (2): racing saves; the observation is judged, not compared)
       PROBE t wall chk                   -> [TI status+4*big; TI hash]  (load the file, flags-only hash)
       SLEEP t ms                         -> []                                      *)
 From Ferrous Require Import Base.Bytes Model.Resp Model.Types Model.Strings Model.Streams Model.Rdb.
@@ -143,26 +145,26 @@ Fixpoint set_byte (l : bytes) (p : nat) (v : Z) : bytes :=
   | _ :: r, O => v :: r
   | c :: r, S p' => c :: set_byte r p' v
   end.
-Definition variant_out (chk : bool) (t wall : Z) (b : bytes) : list tok :=
-  match load chk t wall b with
+Definition variant_out (t wall : Z) (b : bytes) : list tok :=
+  match load t wall b with
   | (st, ds, r) =>
       let big := if 64 * len b + 1048576 <? r_resv r then 4 else 0 in
       [TI (st_code st + big); TI (hash_toks (flag_dbs t 0 ds))]
   end.
-Fixpoint prefixes_out (chk : bool) (t wall : Z) (b : bytes) (n : nat) (acc : list tok) : list tok :=
+Fixpoint prefixes_out (t wall : Z) (b : bytes) (n : nat) (acc : list tok) : list tok :=
   match n with
   | O => acc
-  | S k => prefixes_out chk t wall b k (variant_out chk t wall (firstn k b) ++ acc)
+  | S k => prefixes_out t wall b k (variant_out t wall (firstn k b) ++ acc)
   end.
 Definition byte_variants (c : Z) (abs xors : list Z) : list Z :=
   filter (fun v => negb (v =? c)) (abs ++ map (fun x => Z.lxor c x) xors).
-Fixpoint corrupt_out (chk : bool) (t wall : Z) (b : bytes) (abs xors : list Z) (pre : bytes) (post : bytes)
+Fixpoint corrupt_out (t wall : Z) (b : bytes) (abs xors : list Z) (pre : bytes) (post : bytes)
   : list tok :=
   match post with
   | [] => []
   | c :: r =>
-      flat_map (fun v => variant_out chk t wall (rev_append pre (v :: r))) (byte_variants c abs xors)
-      ++ corrupt_out chk t wall b abs xors (c :: pre) r
+      flat_map (fun v => variant_out t wall (rev_append pre (v :: r))) (byte_variants c abs xors)
+      ++ corrupt_out t wall b abs xors (c :: pre) r
   end.
 
 (** ---- one operation ---- *)
@@ -243,20 +245,20 @@ Definition rdb_op (s : mst) (op : list tok) : list tok * mst :=
             else
               let tie :=
                 if rt_guard t wall wall ds && forallb (fun d => forallb (fun ke => negb (expired t (snd ke))) (d_data d)) ds then
-                  match load (0 <? chk) t wall b with
+                  match load t wall b with
                   | (LOk, ds', _) =>
                       let (ver, ctime) := aux_of b in
                       if beq (save ver ctime t wall (map rev_db ds')) b then 1 else 0
                   | _ => 0
                   end
                 else 1 in
-              ([TI 0; TI tie], {| m_ds := map (purge t) ds; m_disk := Some b |})
+              ([TI 0; TI tie], {| m_ds := ds; m_disk := Some b |})
         | _ => ([TB (bs "BADOP")], s)
         end
       else if beq name (bs "MSAVE") then
         match rest with
         | [TI _; TI wall] => let b := model_save t wall ds in
-                             ([TI (len b)], {| m_ds := map (purge t) ds; m_disk := Some b |})
+                             ([TI (len b)], {| m_ds := ds; m_disk := Some b |})
         | _ => ([TB (bs "BADOP")], s)
         end
       else if beq name (bs "MBYTES") then
@@ -274,7 +276,7 @@ Definition rdb_op (s : mst) (op : list tok) : list tok * mst :=
         | [TI wall; TI chk] =>
             match m_disk s with
             | None => ([TI 0], {| m_ds := empty_dbs; m_disk := None |})
-            | Some b => match load (0 <? chk) t wall b with
+            | Some b => match load t wall b with
                         | (st, ds', _) => ([TI (st_code st)], {| m_ds := ds'; m_disk := m_disk s |})
                         end
             end
@@ -288,8 +290,7 @@ Definition rdb_op (s : mst) (op : list tok) : list tok * mst :=
             | Some b =>
                 let abs := firstn (Z.to_nat k) (tis r) in
                 let xors := tis (tl (skipn (Z.to_nat k) r)) in
-                let c := 0 <? chk in
-                let outs := prefixes_out c t wall b (length b) [] ++ corrupt_out c t wall b abs xors [] b in
+                let outs := prefixes_out t wall b (length b) [] ++ corrupt_out t wall b abs xors [] b in
                 (TI (len outs / 2) :: outs, s)
             end
         | _ => ([TB (bs "BADOP")], s)
@@ -303,17 +304,27 @@ Definition rdb_op (s : mst) (op : list tok) : list tok * mst :=
            failure and leaves the dump unchanged, a later save succeeds (Props/C10.v); the
            number of calls is that of the writer model.  [TI wall] = ctime*1000 read by the harness *)
         match rest with
-        | [TI wall] => ([TI (calls_save ver_default (wall / 1000) t ds); TI 1; TI 1; TI 1],
-                        {| m_ds := map (purge t) ds; m_disk := m_disk s |})
+        | [TI wall] => ([TI (calls_save ver_default (wall / 1000) t ds); TI 1; TI 1; TI 1], s)
         | _ => ([TB (bs "BADOP")], s)
         end
+      else if beq name (bs "BGSWEEP") then
+        (* background saves with an armed write failure, then undisturbed ones (Props/C10.v
+           c10_bgsave_flag_clear_when_idle, c10_later_bgsave_succeeds): every failing BGSAVE is
+           accepted, its thread ends, the flag clears, the dump is unchanged; a later BGSAVE is
+           accepted and publishes the newer data; likewise failing SAVE then BGSAVE and failing
+           BGSAVE then SAVE *)
+        match rest with
+        | [TI wall] => ([TI (calls_save ver_default (wall / 1000) t ds); TI 1; TI 1; TI 1; TI 1; TI 1; TI 1], s)
+        | _ => ([TB (bs "BADOP")], s)
+        end
+      else if beq name (bs "TEARSTRESS") then ([TI 1], s)   (* schedule-dependent observation, judged only *)
       else if beq name (bs "PROBE") then
         match rest with
         | [TI wall; TI chk] =>
             match m_disk s with
             | None => ([TI 0; TI 0], s)
-            | Some b => match load (0 <? chk) t wall b with
-                        | (_, ds', _) => (variant_out (0 <? chk) t wall b, {| m_ds := ds'; m_disk := m_disk s |})
+            | Some b => match load t wall b with
+                        | (_, ds', _) => (variant_out t wall b, {| m_ds := ds'; m_disk := m_disk s |})
                         end
             end
         | _ => ([TB (bs "BADOP")], s)
